@@ -684,36 +684,36 @@ func c04CertMut(f func([][]byte) [][]byte) func(c04Variant, handshake.Message) (
 // ---- the rewriter
 
 type c04Obs struct {
-	Kind     string     `json:"kind"`
-	Variant  c04Variant `json:"variant"`
-	Mut      string     `json:"mut"`
-	Dir      string     `json:"dir"`
-	HType    int        `json:"htype"`
-	Applied  int        `json:"applied"`   // records rewritten (retransmissions included)
-	Seen     int        `json:"seen"`      // records of the targeted type seen in that direction
-	RTDiff   int        `json:"rt_diff"`   // unmodified decode/encode did not reproduce the bytes
-	Frag     int        `json:"frag"`      // targeted records that were fragments (left alone)
-	CRes     string     `json:"cres"`
-	SRes     string     `json:"sres"`
-	CErr     string     `json:"cerr"`
-	SErr     string     `json:"serr"`
-	CAlert   int        `json:"calert"` // alert raised by the client (-1 none seen)
-	SAlert   int        `json:"salert"`
-	CReads   int        `json:"creads"`
-	SReads   int        `json:"sreads"`
-	CSuite   int        `json:"csuite"` // negotiated parameters as reported by a side that succeeded
-	SSuite   int        `json:"ssuite"`
-	CALPN    string     `json:"calpn"`
-	SALPN    string     `json:"salpn"`
-	CSRTP    int        `json:"csrtp"`
-	SSRTP    int        `json:"ssrtp"`
-	BaseSuite int       `json:"base_suite"` // what an undisturbed handshake of the variant negotiates
-	BaseALPN string     `json:"base_alpn"`
-	BaseSRTP int        `json:"base_srtp"`
-	Wire     []c03WireAlert `json:"wire_alerts"`
-	Delivered int       `json:"delivered"`
-	Storm    bool       `json:"storm"` // more than c04MaxDatagrams datagrams: endpoints answer each other without pause
-	Tail     []string   `json:"tail,omitempty"` // last datagrams of a storm (sender:first-byte:length)
+	Kind      string         `json:"kind"`
+	Variant   c04Variant     `json:"variant"`
+	Mut       string         `json:"mut"`
+	Dir       string         `json:"dir"`
+	HType     int            `json:"htype"`
+	Applied   int            `json:"applied"` // records rewritten (retransmissions included)
+	Seen      int            `json:"seen"`    // records of the targeted type seen in that direction
+	RTDiff    int            `json:"rt_diff"` // unmodified decode/encode did not reproduce the bytes
+	Frag      int            `json:"frag"`    // targeted records that were fragments (left alone)
+	CRes      string         `json:"cres"`
+	SRes      string         `json:"sres"`
+	CErr      string         `json:"cerr"`
+	SErr      string         `json:"serr"`
+	CAlert    int            `json:"calert"` // alert raised by the client (-1 none seen)
+	SAlert    int            `json:"salert"`
+	CReads    int            `json:"creads"`
+	SReads    int            `json:"sreads"`
+	CSuite    int            `json:"csuite"` // negotiated parameters as reported by a side that succeeded
+	SSuite    int            `json:"ssuite"`
+	CALPN     string         `json:"calpn"`
+	SALPN     string         `json:"salpn"`
+	CSRTP     int            `json:"csrtp"`
+	SSRTP     int            `json:"ssrtp"`
+	BaseSuite int            `json:"base_suite"` // what an undisturbed handshake of the variant negotiates
+	BaseALPN  string         `json:"base_alpn"`
+	BaseSRTP  int            `json:"base_srtp"`
+	Wire      []c03WireAlert `json:"wire_alerts"`
+	Delivered int            `json:"delivered"`
+	Storm     bool           `json:"storm"`          // more than c04MaxDatagrams datagrams: endpoints answer each other without pause
+	Tail      []string       `json:"tail,omitempty"` // last datagrams of a storm (sender:first-byte:length)
 }
 
 const c04MaxDatagrams = 400
